@@ -52,6 +52,9 @@ func init() {
 			if cause == "wfail" && kind != "pub2w" && kind != "pub2b" {
 				tr1.setRefuse(true)
 			}
+			if kind == "sub" || kind == "unsub" {
+				c1.VerifSetIDLast(uint32(id) - 1) // the interrupted request draws identifier `id`
+			}
 			errCh := make(chan error, 1)
 			go func() {
 				switch kind {
@@ -114,13 +117,29 @@ func init() {
 				return fail("C19", "setup", "connect 2: %v", err)
 			}
 			ctx2, cancel2 := context.WithCancel(context.Background())
+			nBefore := 0
+			var otherID uint16
+			if kind == "sub" || kind == "unsub" {
+				// C15: another request is outstanding on the new connection and happens to hold the identifier the
+				// interrupted request had on the old one (the counters of different connections are unrelated)
+				c2.VerifSetIDLast(uint32(id) - 1)
+				go c2.Subscribe(ctx2, mqtt.Subscription{Topic: "other/#", QoS: mqtt.QoS0})
+				if !waitWrites(tr2, 1) {
+					cancel2()
+					return fail("C19", "setup", "the concurrent Subscribe was not written")
+				}
+				if op, _, e := specDecode(tr2.writeList()[0]); e == nil {
+					otherID = op.ID
+				}
+				nBefore = 1
+			}
 			rerr := make(chan error, 1)
 			go func() { rerr <- h.Retry(ctx2, c2) }()
-			if !waitWrites(tr2, 1) {
+			if !waitWrites(tr2, nBefore+1) {
 				cancel2()
 				return fail("C19", "retry-wrong-client", "Retry wrote nothing on the client it was given (client 1 got %d new writes)", len(tr1.writeList())-before1)
 			}
-			w := tr2.writeList()[0]
+			w := tr2.writeList()[nBefore]
 			cancel2()
 			select {
 			case e2 := <-rerr:
@@ -138,6 +157,9 @@ func init() {
 			p, _, derr := specDecode(w)
 			if derr != nil {
 				return fail("C19", "retry-wrong-request", "Retry wrote an undecodable packet %x", w)
+			}
+			if nBefore == 1 && (p.ID == otherID || p.ID == 0) {
+				r.Props = append(r.Props, viol("C15", "duplicate-outstanding-id", "%s/%s: the retransmitted request carries identifier %d while another request with identifier %d is outstanding on that connection", kind, cause, p.ID, otherID))
 			}
 			switch kind {
 			case "pub1", "pub2a":
